@@ -113,6 +113,11 @@ def numpy_int_representer(dumper, data):
     return dumper.represent_int(int(data))
 yaml.add_representer(np.int64, numpy_int_representer)
 yaml.add_representer(np.int32, numpy_int_representer)
+# other widths (float32, int16, ...) would otherwise be written as python
+# object tags that the loader refuses
+yaml.add_multi_representer(np.floating, numpy_float_representer)
+yaml.add_multi_representer(np.integer, numpy_int_representer)
+yaml.add_multi_representer(np.complexfloating, complex_representer)
 
 
 # numpy ufuncs can no longer be pickled as of numpy 1.20
